@@ -299,6 +299,10 @@ def run(rep, facts, tier):
     from rules.C12 import rule_move_all
     rule_move_all(rep, fx, 'R11.9')
 
+    # participant removal polarity and the one-participant-at-a-time discipline of the discovery database (decided under C12) are necessary for the matched set too
+    from rdv import report as _report
+    _report.borrow(rep, facts, tier, 'C12', {'R12.3': 'R11.10', 'R12.6': 'R11.11'})
+
     # ------------------------------------------------------------ R11.6 crossed roles (shared lint, rdv/swaplint.py)
     from rdv import swaplint
     swaplint.run_rule(rep, facts['default'], 'R11.6', ['rtps::dp_event_loop', 'discovery::discovery_db', 'rtps::reader::Reader::update', 'rtps::writer::Writer::update', 'dds::statusevents'])
